@@ -315,7 +315,9 @@ def u_assign_descriptor_multi(I):
     cls = source.module(SCHEME).classes['GroupAdditivityScheme']
     names = [('A', 'A', 'A', 'A'), ('A', 'B', 'A', 'B'), ('A', 'B', 'C', 'D'), ('A', 'A', 'B', 'B')][ctx.choose([True] * 4, 'names of the four entries')]
     counts = [[0, 1, 2][ctx.choose([True] * 3, 'distinct matches of entry %d' % e)] for e in range(4)]
-    remaps = [{}, {'A': [(2, 'Z'), (1, 'B')]}][ctx.choose([True, True], 'remaps')]
+    # remaps: none; one name onto two others (one of them a name that also occurs by itself); a CHAIN (the target of one rule is the key of another): a
+    # linear substitution replaces every name once, by the rule declared for it -- it does not depend on the order in which the names were met
+    remaps = [{}, {'A': [(2, 'Z'), (1, 'B')]}, {'A': [(1, 'B')], 'B': [(1, 'M')]}, {'B': [(1, 'A')], 'A': [(1, 'M')]}][ctx.choose([True] * 4, 'remaps')]
     calls = []
 
     def matches_of(e):
@@ -369,6 +371,103 @@ def u_assign_descriptor_multi(I):
                 ('RING-based entries are matched on the hydrogen-complete molecule', z3.BoolVal(all(c[2] is mol for c in calls if c[0] == 'ring')))]
     check_outcome(I, out, raises={}, returns=posts)
     return {'inputs': {'names': names, 'counts': counts}}
+
+
+def u_assign_group(I):
+    """_AssignGroup on a chain of three atoms a0 - a1 - a2 with arbitrary (chosen) centre / peripheral names: every atom with a named centre contributes ONE
+    group named by its centre and the multiset of its neighbours' peripheral names (the name itself is Group.name, C19: stubbed by its contract here);
+    remaps are one linear substitution of the counts"""
+    ctx = I.ctx
+    W_ = I.world
+    cls = source.module(SCHEME).classes['GroupAdditivityScheme']
+    cen = ['C', ['C', 'none'][ctx.choose([True, True], 'centre name of the middle atom')], ['O', 'C'][ctx.choose([True, True], 'centre name of the last atom')]]
+    per = [['C', 'none'][ctx.choose([True, True], 'peripheral name of the first atom')], 'C', cen[2]]
+    nbrs = {0: [1], 1: [0, 2], 2: [1]}
+
+    def spec_name(c, ps):
+        cnt = {}
+        for p_ in ps:
+            cnt[p_] = cnt.get(p_, 0) + 1
+        return c + ''.join('(%s)%s' % (p_, cnt[p_] if cnt[p_] > 1 else '') for p_ in sorted(cnt))
+    gname = {i: spec_name(cen[i], [per[j] for j in nbrs[i] if per[j] != 'none']) for i in range(3) if cen[i] != 'none'}
+    first, last = gname[0], gname[2]
+    remaps = [{}, {first: [(2, 'Z'), (0.5, last)]}, {first: [(1, last)], last: [(1, 'M')]}, {last: [(1, first)], first: [(1, 'M')]}][ctx.choose([True] * 4, 'remaps: none / one name onto two / chain / chain the other way')]
+    props = [dict() for _ in range(3)]
+    AtomC = BuiltinClass('GAtom')
+    atoms = [Obj(AtomC, {'i': i}, 'param') for i in range(3)]
+
+    def a_attr(I_, o_, n_):
+        i = o_.fields['i']
+        if n_ == 'GetProp':
+            def gp(I2, a, k):
+                if a[0] == 'Group_Center_Name':
+                    return cen[i]
+                if a[0] == 'Group_Periph_Name':
+                    return per[i]
+                if a[0] in props[i]:
+                    return props[i][a[0]]
+                raise I2.exc('KeyError', a[0])
+            return Builtin('GetProp', gp)
+        if n_ == 'SetProp':
+            return Builtin('SetProp', lambda I2, a, k: props[i].__setitem__(a[0], a[1]))
+        if n_ == 'GetNeighbors':
+            return Builtin('GetNeighbors', lambda I2, a, k: tuple(atoms[j] for j in nbrs[i]))
+        return NotImplementedVal
+    W_.abstract['GAtom'] = {'attr': a_attr}
+    W_.abstract['GMol'] = {'attr': lambda I_, o_, n_: Builtin('GetAtoms', lambda I2, a, k: tuple(atoms)) if n_ == 'GetAtoms' else NotImplementedVal}
+    made = []
+    W_.ctor_hooks['Group'] = lambda I_, c, a, k: (made.append((a[1], list(a[2]))), Obj(c, {'name': spec_name(a[1], list(a[2])), 'scheme': a[0]}, 'fresh'))[1]
+    o = Obj(cls, {'remaps': remaps}, 'param')
+    out = run_target(I, SCHEME, 'GroupAdditivityScheme._AssignGroup', [Obj(BuiltinClass('GMol'), {}, 'param')], self_obj=o)
+    raw = {}
+    for i in gname:
+        raw[gname[i]] = raw.get(gname[i], 0) + 1
+    want = {}
+    for nme, c in raw.items():
+        if nme in remaps:
+            for coef, tgt in remaps[nme]:
+                want[tgt] = want.get(tgt, 0) + c * coef
+        else:
+            want[nme] = want.get(nme, 0) + c
+
+    def posts(r):
+        if not isinstance(r, dict):
+            return [('returns the group counts', z3.BoolVal(False))]
+        return [('one group per atom with a named centre, named by the centre and the multiset of the neighbours\' peripheral names (atoms without a peripheral name do not appear in it)',
+                 z3.BoolVal(sorted(made) == sorted((cen[i], sorted(per[j] for j in nbrs[i] if per[j] != 'none')) for i in gname) or
+                            sorted((c_, sorted(p_)) for c_, p_ in made) == sorted((cen[i], sorted(per[j] for j in nbrs[i] if per[j] != 'none')) for i in gname))),
+                ('the counts are the per-atom groups with the remap rules applied as ONE linear substitution (every name replaced once by the rule declared for it, '
+                 'whatever the order in which the names were met)', z3.BoolVal({k_: v_ for k_, v_ in r.items() if v_ != 0} == {k_: v_ for k_, v_ in want.items() if v_ != 0})),
+                ('an atom without a named centre is marked as belonging to no group', z3.BoolVal(all(props[i].get('Group_name') == 'none' for i in range(3) if cen[i] == 'none')))]
+    check_outcome(I, out, raises={}, returns=posts)
+    return {'inputs': {'centre': cen, 'peripheral': per, 'remaps': remaps}}
+
+
+def replay_chain(model, state, ob):
+    """a synthetic scheme with a chained remap, the same molecule written in two atom orders"""
+    import os, shutil, tempfile
+    from pgradd.GroupAdd.Scheme import GroupAdditivityScheme
+    from pgradd import yaml_io
+    from . import real
+    import yaml
+    src = os.path.join(source.DATA_DIR, 'BensonGA', 'scheme.yaml')
+    d = yaml.safe_load(open(src))
+    d['remaps'] = {'C(H)3(O)': [[1, 'C(C)(H)3']], 'C(C)(H)3': [[1, 'methyl']]}
+    tmp = tempfile.mkdtemp(prefix='pyvc_chain_')
+    try:
+        os.makedirs(os.path.join(tmp, 'S'))
+        yaml.safe_dump(d, open(os.path.join(tmp, 'S', 'scheme.yaml'), 'w'))
+        with real.quiet():
+            sch = GroupAdditivityScheme.Load(os.path.join(tmp, 'S'))
+            x, y = dict(sch.GetDescriptors('COCC')), dict(sch.GetDescriptors('CCOC'))
+    finally:
+        shutil.rmtree(tmp, ignore_errors=True)
+    want = {k_: v_ for k_, v_ in x.items()}
+    return {'failed': x != y or x.get('C(C)(H)3') != 1 or x.get('methyl') != 1, 'input': "BensonGA scheme with remaps {'C(H)3(O)': [[1, 'C(C)(H)3']], 'C(C)(H)3': [[1, 'methyl']]}: GetDescriptors('COCC') vs GetDescriptors('CCOC')",
+            'observed': [str(x), str(y)], 'expected': "the same answer for both spellings, with C(C)(H)3: 1 (from the methoxy carbon) and methyl: 1 (from the ethyl end)"}
+
+
+replay_chain.model_free = True
 
 
 def replay_descriptor(model, state, ob):
@@ -447,8 +546,17 @@ def u_getdescriptors(I):
     W_.contracts[(SCHEME, '_aromatization_Benson')] = lambda I_, a, k: seen.setdefault('arom', a[0])
     W_.contracts[(SCHEME, 'GroupAdditivityScheme._AssignCenterPattern')] = lambda I_, a, k: seen.setdefault('center', a[1])
     g1, d1 = I.fresh('n_group', 'int'), I.fresh('n_desc', 'int')
-    W_.contracts[(SCHEME, 'GroupAdditivityScheme._AssignGroup')] = lambda I_, a, k: (seen.setdefault('group', a[1]), {'C(C)(H)3': g1})[1]
-    W_.contracts[(SCHEME, 'GroupAdditivityScheme._AssignDescriptor')] = lambda I_, a, k: (seen.setdefault('desc', tuple(a[1:])), {'Cis': d1})[1]
+    # the two parts are count maps (defaultdict(int), as the real functions build them) over names from ONE name space: a correction descriptor may carry
+    # the name of a group (shipped: centre 'CC' and descriptor 'CC' in GRWSurface2018 and four more schemes; a remap may also target a descriptor name)
+    from pyvc.engine import DefaultDict
+    dname = ['Cis', 'C(C)(H)3'][ctx.choose([True, True], 'descriptor name: its own / that of a group')]
+
+    def cmap(items):
+        d_ = DefaultDict(items)
+        d_.factory = Builtin('int', lambda I2, a2, k2: 0)
+        return d_
+    W_.contracts[(SCHEME, 'GroupAdditivityScheme._AssignGroup')] = lambda I_, a, k: (seen.setdefault('group', a[1]), cmap({'C(C)(H)3': g1, 'C(C)2(H)2': 1}))[1]
+    W_.contracts[(SCHEME, 'GroupAdditivityScheme._AssignDescriptor')] = lambda I_, a, k: (seen.setdefault('desc', tuple(a[1:])), cmap({dname: d1}))[1]
     o = Obj(cls, {}, 'param')
     arg = I.fresh('smiles', 'str') if form == 'string' else mk('input')
     out = run_target(I, SCHEME, 'GroupAdditivityScheme.GetDescriptors', [arg], self_obj=o)
@@ -465,7 +573,10 @@ def u_getdescriptors(I):
         clean = seen.get('desc', (None, None))[1]
         ps.append(('the hydrogen-free copy handed to the SMILES-based descriptors is defined and denotes the input molecule',
                    z3.BoolVal(isinstance(clean, Obj) and clean.fields.get('tag') in ('parsed', 'copy') and clean.fields.get('from') is arg)))
-        ps.append(('result = groups overlaid with the correction descriptors', z3.BoolVal(isinstance(r, dict) and set(r) == {'C(C)(H)3', 'Cis'} and r['C(C)(H)3'] is g1 and r['Cis'] is d1)))
+        want = {'C(C)(H)3': g1, 'C(C)2(H)2': z3.IntVal(1)}
+        want[dname] = (want[dname] + d1) if dname in want else d1
+        ps.append(('every name is counted once per group atom of that name plus once per match of the correction descriptor of that name (nothing is lost when a descriptor carries the name of a group)',
+                   z3.And([z3.BoolVal(isinstance(r, dict) and set(r) == set(want))] + [z3_of(r[n]) == want[n] for n in want if isinstance(r, dict) and n in r])))
         UNS, ZERO = BOND_CODES['UNSPECIFIED'], BOND_CODES['ZERO']
         final = btype.get(id(work), bcode) if work is not None else bcode
         ps.append(('the molecule that is matched has a ZERO-order bond where the input had an UNSPECIFIED one, and every other bond type as in the input (%s input)' % form,
@@ -481,6 +592,15 @@ def replay_getdescriptors(model, state, ob):
     import pgradd.ThermoChem  # noqa
     from rdkit import Chem
     from . import real
+    if 'every name is counted' in str(ob.get('name', '')):
+        # shipped scheme with a centre pattern and a correction descriptor of one name ('CC'): dicarbon contributes two groups 'CC', ethane one descriptor 'CC'
+        from pgradd.GroupAdd.Scheme import GroupAdditivityScheme
+        sch = GroupAdditivityScheme.Load('GRWSurface2018')
+        with real.quiet():
+            a, b, ab = dict(sch.GetDescriptors('[C]$[C]')), dict(sch.GetDescriptors('CC')), dict(sch.GetDescriptors('[C]$[C].CC'))
+        want = {n: a.get(n, 0) + b.get(n, 0) for n in set(a) | set(b)}
+        return {'failed': ab != want, 'input': "GRWSurface2018: GetDescriptors('[C]$[C].CC')  (parts: %r and %r)" % (a, b), 'observed': str(ab), 'expected': str(want),
+                'script': "from pgradd.GroupAdd.Scheme import GroupAdditivityScheme as S\ns = S.Load('GRWSurface2018')\nprint(dict(s.GetDescriptors('[C]$[C]')), dict(s.GetDescriptors('CC')), dict(s.GetDescriptors('[C]$[C].CC')))\n"}
     lib = real.load('BensonGA')
     k1, a = real.outcome(lambda: dict(lib.GetDescriptors('CCO')))
     k2, b = real.outcome(lambda: dict(lib.GetDescriptors(Chem.MolFromSmiles('CCO'))))
@@ -584,7 +704,8 @@ UNITS = [
     Unit('GroupAdditivityScheme.GetDescriptors', (SCHEME, 'GroupAdditivityScheme.GetDescriptors'), u_getdescriptors, replay_getdescriptors),
     Unit('GroupAdditivityScheme._AssignCenterPattern', (SCHEME, 'GroupAdditivityScheme._AssignCenterPattern'), u_assign_center),
     Unit('GroupAdditivityScheme._AssignDescriptor', (SCHEME, 'GroupAdditivityScheme._AssignDescriptor'), u_assign_descriptor, replay_descriptor),
-    Unit('GroupAdditivityScheme._AssignDescriptor[several entries, shared names, remaps]', (SCHEME, 'GroupAdditivityScheme._AssignDescriptor'), u_assign_descriptor_multi),
+    Unit('GroupAdditivityScheme._AssignDescriptor[several entries, shared names, remaps]', (SCHEME, 'GroupAdditivityScheme._AssignDescriptor'), u_assign_descriptor_multi, replay_chain),
+    Unit('GroupAdditivityScheme._AssignGroup[three atoms, remaps]', (SCHEME, 'GroupAdditivityScheme._AssignGroup'), u_assign_group, replay_chain),
     Unit('_aromatization_Benson', (SCHEME, '_aromatization_Benson'), u_aromatization),
     Unit('_aromatization_Benson[two disjoint rings]', (SCHEME, '_aromatization_Benson'), u_aromatization_two),
 ]
